@@ -1873,6 +1873,25 @@ def async_check(prop, tier):
     rnd.shuffle(withfake)
     limit = 1500 if tier == "quick" else 20000
     hists = withfake[:limit] + nofake[:40]
+    # longer sequences (10 steps) sampled by TLC's simulator, and re-fake ladders: one function faked k times in one
+    # injector, then a sibling, then everything awaited
+    rl = tlc.check("MC_Async", "MC_Async_long", workers=1, timeout=3000, coverage=False,
+                   sim={"num": 300 if tier == "quick" else 5000, "depth": 12, "seed": vlib.seed()})
+    if rl["violation"]:
+        run.design_violation(rl)
+    seenl = set()
+    for h in tlc.parse_replay_lines(rl["prints"]):
+        k = json.dumps(h, sort_keys=True)
+        if k not in seenl and sum(1 for x in h if x["act"] == "Fake") >= 3:
+            seenl.add(k)
+            hists.append(h)
+    for k in (2, 3, 4, 5, 6):
+        for sib in ("a2", "a3"):
+            lad = [{"act": "New"}] + [{"act": "Fake", "a": "a1", "v": "v1" if j % 2 == 0 else "v2"} for j in range(k)]
+            lad += [{"act": "Fake", "a": sib, "v": "v2"}, {"act": "Await", "a": "a1", "thread": False}, {"act": "Await", "a": sib, "thread": True},
+                    {"act": "Await", "a": "a1", "thread": True}, {"act": "Drop"}]
+            hists.append(lad)
+    run.extra["long_sequences"] = len(seenl)
     vlib.build_harness()
     scen = [{"id": i, "mode": "seq", "steps": h, "unmet_counted": (i % 4 == 0)} for i, h in enumerate(hists, 1)]
     scen.append({"id": len(scen) + 1, "mode": "shapes"})
